@@ -6,6 +6,7 @@ from props import wfm_common as W
 
 ID = "C09"
 PROPS_FILE = "Props/C09.v"
+SUBCHECKS = ["c08"]   # creating a Timing from timestamps (every constructor spelling) accepts exactly the monotonic sequences
 RULE = ("pool histories on Analog / Complex / Digital waveforms biased to irregular timing: constructor timing= with fewer / "
         "equal / more timestamps than samples, timing assignment, append of arrays with timestamps (matching, too few, too "
         "many, wrong type, direction reversals and plateaus), append of waveforms and sequences (irregular and mixed modes, "
